@@ -58,6 +58,24 @@ fn do_layout(args: &[&str]) -> String {
     }
 }
 
+/// `jsonstr <hex>`: what serde_json writes for the string, and whether it reads it back
+fn do_jsonstr(args: &[&str]) -> String {
+    let s = unhex(args[0]);
+    let tok = serde_json::to_string(&s).unwrap();
+    let body = &tok[1..tok.len() - 1];
+    let back: Result<String, _> = serde_json::from_str(&tok);
+    format!("ok {} rt={}", enhex(body), if back.map(|b| b == s).unwrap_or(false) { 1 } else { 0 })
+}
+
+/// `jsonparse <hex of a string token body>`
+fn do_jsonparse(args: &[&str]) -> String {
+    let body = unhex(args[0]);
+    match serde_json::from_str::<String>(&format!("\"{}\"", body)) {
+        Ok(s) => format!("ok {}", enhex(&s)),
+        Err(_) => "err".to_string(),
+    }
+}
+
 fn main() {
     panic::set_hook(Box::new(|_| {}));
     let stdin = io::stdin();
@@ -77,6 +95,8 @@ fn main() {
         }
         let resp = match toks[0] {
             "layout" => do_layout(&toks[1..]),
+            "jsonstr" => do_jsonstr(&toks[1..]),
+            "jsonparse" => do_jsonparse(&toks[1..]),
             op => h.exec(op, &toks[1..]),
         };
         writeln!(out, "{}", resp).unwrap();
